@@ -482,9 +482,11 @@ def _main():
     run = Run(PROP, "proof")
     os.makedirs(WORKDIR, exist_ok=True)
     run.cov["rule"] = ("a case is one operation history run on the extracted model and on the real boa_gc, all observation lines compared; "
-                       "exhaustive part: every history over <=3 strong boxes / <=2 ephemeron boxes (quick: all sequences of <=5 valid operations, finalizer kinds {0,1}; "
-                       "thorough: <=7 operations with plain finalizers and <=6 operations with finalizer kinds {0,1}, a branch pruned when the same model "
-                       "state was already expanded with at least the remaining depth); "
+                       "order: corpus, targeted family (weak cell reachable only through another ephemeron's value, inner allocated before/after outer: 320 histories), "
+                       "random, exhaustive, schedule runs; a failure outside the known class skips the later phases; "
+                       "exhaustive part: histories over <=3 strong boxes / <=2 ephemeron boxes, finalizer kinds {0,1} (quick: all sequences of <=4 valid operations + the "
+                       "memoised state-space frontier at <=5, i.e. a branch is pruned when the same model state was already expanded with at least the remaining depth; "
+                       "thorough: all sequences of <=5, memoised <=7 with plain finalizers and <=6 with kinds {0,1}); "
                        "random part: seeded histories (valid operations chosen from the model state + 2% malformed lines + macro shapes); "
                        "distinct = distinct operation sequences; non-trivial = contains at least one collection with a non-empty heap")
     broken = None
@@ -524,7 +526,6 @@ def _main():
     run.cov["box_sizes"] = {"node": sizes[0], "map": sizes[1], "eph_unit": sizes[2], "eph_gc": sizes[3]}
     stats = {}
     all_mism, all_viol = [], []
-    t0 = time.time()
 
     def batch(text, label, oracle=True, max_poison=None):
         hists = split_histories(text)
@@ -553,72 +554,96 @@ def _main():
                 _, _, mism, viol = batch(text, "corpus")
                 all_mism += mism
                 all_viol += viol
-    # 4b exhaustive
-    #   quick:    every sequence of <= 5 valid operations (no pruning), finalizer kinds {0,1}
-    #   thorough: memoised on the model state (a branch is pruned when the same state was already expanded with at
-    #             least the remaining depth; every explored transition still occurs in some history):
-    #             <= 7 operations with plain finalizers, <= 6 operations with finalizer kinds {0,1}
-    if run.quick:
-        enum_plans = [("enum", 5, "0,1", 16)]
-    else:
-        enum_plans = [("enumg", 7, "0", 2 * vlib.NCPU), ("enumg", 6, "0,1", 2 * vlib.NCPU)]
-    enum_jobs = []
-    for mode, depth, fins, shards in enum_plans:
-        for i in range(shards):
-            enum_jobs.append((mode, depth, fins, i, shards, run.rng.getrandbits(30), driver, gcops, sizes, 40 if run.quick else 150))
-    enum_info = []
-    ex_hist = 0
-    with ProcessPoolExecutor(max_workers=vlib.NCPU) as ex:
-        for (mism, viol, st, err, n), job in zip(ex.map(enum_shard, enum_jobs), enum_jobs):
-            all_mism += mism
-            all_viol += viol
-            enum_info.append(err.strip())
-            for k, v in st.items():
-                if isinstance(v, int):
-                    stats["exhaustive_" + k] = stats.get("exhaustive_" + k, 0) + v
-                else:
-                    stats.setdefault("exhaustive_" + k, v)
-            ex_hist += n
-            run.cov["evaluations"] += n
-            # the enumerated histories are pairwise distinct by construction; non-trivial = contains a collection
-            run._distinct.update(("ex", job[0], job[1], job[2], job[3], j) for j in range(st.get("nontrivial", 0)))
-    stats["exhaustive_plans"] = [{"mode": m, "depth": d, "finalizer_kinds": f, "shards": sh} for m, d, f, sh in enum_plans]
-    stats["exhaustive_enum"] = enum_info[:2] + enum_info[-2:]
-    stats["exhaustive_wall_s"] = round(time.time() - t0, 1)
-    # 4c random
-    t1 = time.time()
-    plans = ([("nores", 64, 400, 24), ("res", 16, 300, 16), ("nores", 8, 5000, 200)] if run.quick else
-             [("nores", 600, 600, 30), ("res", 300, 400, 20), ("nores", 40, 5000, 200), ("nores", 200, 1500, 80), ("res", 100, 1500, 60)])
-    rand_hists = []
-    gen_jobs = []
-    for prof, count, nops, maxbox in plans:
-        per = max(1, count // 8)
-        for j in range(0, count, per):
-            gen_jobs.append((prof, min(per, count - j), nops, maxbox, run.rng.getrandbits(30)))
+    # 4b targeted family: a weak cell reachable only through another ephemeron's value, inner allocated before / after
+    #    the outer (gen/c09_family.py) - the shape that needs the pending-ephemeron fix-point and that the bounded
+    #    universe (<= 2 ephemeron boxes) cannot contain
+    import c09_family
+    tf = time.time()
+    fam = c09_family.family()
+    _, _, mism, viol = batch("".join("\n".join(h) + "\nreset\n" for h in fam), "family")
+    all_mism += mism
+    all_viol += viol
+    stats["family_wall_s"] = round(time.time() - tf, 1)
+    run.sample({"family_history": fam[0]})
 
-    dist = {}
-    with ProcessPoolExecutor(max_workers=vlib.NCPU) as ex:
-        for hists, mism, viol, st, job in ex.map(random_job, [j + (driver, gcops, sizes) for j in gen_jobs]):
-            all_mism += mism
-            all_viol += viol
-            rand_hists += hists
-            for k, v in st.items():
-                if isinstance(v, int):
-                    stats["random_" + k] = stats.get("random_" + k, 0) + v
-            for h in hists:
-                run.count(tuple(h), nontrivial=("gc" in h))
-                for o in h:
-                    w = o.split()[0]
-                    dist[w] = dist.get(w, 0) + 1
-    stats["random_wall_s"] = round(time.time() - t1, 1)
-    stats["random_op_distribution"] = dict(sorted(dist.items(), key=lambda kv: -kv[1]))
-    stats["random_longest_history"] = max((len(h) for h in rand_hists), default=0)
-    if rand_hists:
-        run.sample({"history_prefix": rand_hists[0][:25]})
+    def new_failure():
+        """A failure outside the known class has been found: the remaining (less discriminating, longer) phases are skipped."""
+        if all_mism:
+            return True
+        return any(classify(ops, v[0], got) is None for ops, v, got in all_viol)
+    # 4c random
+    rand_hists = []
+    if not new_failure():
+        t1 = time.time()
+        plans = ([("nores", 64, 400, 24), ("res", 16, 300, 16), ("nores", 4, 5000, 200)] if run.quick else
+                 [("nores", 600, 600, 30), ("res", 300, 400, 20), ("nores", 40, 5000, 200), ("nores", 200, 1500, 80), ("res", 100, 1500, 60)])
+        gen_jobs = []
+        for prof, count, nops, maxbox in plans:
+            per = max(1, count // 8)
+            for j in range(0, count, per):
+                gen_jobs.append((prof, min(per, count - j), nops, maxbox, run.rng.getrandbits(30)))
+
+        dist = {}
+        with ProcessPoolExecutor(max_workers=vlib.NCPU) as ex:
+            for hists, mism, viol, st, job in ex.map(random_job, [j + (driver, gcops, sizes) for j in gen_jobs]):
+                all_mism += mism
+                all_viol += viol
+                rand_hists += hists
+                for k, v in st.items():
+                    if isinstance(v, int):
+                        stats["random_" + k] = stats.get("random_" + k, 0) + v
+                for h in hists:
+                    run.count(tuple(h), nontrivial=("gc" in h))
+                    for o in h:
+                        w = o.split()[0]
+                        dist[w] = dist.get(w, 0) + 1
+        stats["random_wall_s"] = round(time.time() - t1, 1)
+        stats["random_op_distribution"] = dict(sorted(dist.items(), key=lambda kv: -kv[1]))
+        stats["random_longest_history"] = max((len(h) for h in rand_hists), default=0)
+        if rand_hists:
+            run.sample({"history_prefix": rand_hists[0][:25]})
+    # 4d exhaustive
+    enum_plans = []
+    if not new_failure():
+        #   memoised ("enumg") = a branch is pruned when the same model state was already expanded with at least the
+        #   remaining depth; every explored transition still occurs in some history (the state-space frontier)
+        #   quick:    every sequence of <= 4 valid operations (no pruning) + the memoised frontier at <= 5, finalizer kinds {0,1}
+        #   thorough: every sequence of <= 5 (no pruning, kinds {0,1}); memoised <= 7 with plain finalizers and <= 6 with kinds {0,1}
+        if run.quick:
+            enum_plans = [("enum", 4, "0,1", vlib.NCPU), ("enumg", 5, "0,1", vlib.NCPU)]
+        else:
+            enum_plans = [("enum", 5, "0,1", 2 * vlib.NCPU), ("enumg", 7, "0", 2 * vlib.NCPU), ("enumg", 6, "0,1", 2 * vlib.NCPU)]
+        t0 = time.time()
+        enum_jobs = []
+        for mode, depth, fins, shards in enum_plans:
+            for i in range(shards):
+                enum_jobs.append((mode, depth, fins, i, shards, run.rng.getrandbits(30), driver, gcops, sizes, 40 if run.quick else 150))
+        enum_info = []
+        ex_hist = 0
+        with ProcessPoolExecutor(max_workers=vlib.NCPU) as ex:
+            for (mism, viol, st, err, n), job in zip(ex.map(enum_shard, enum_jobs), enum_jobs):
+                all_mism += mism
+                all_viol += viol
+                enum_info.append(err.strip())
+                for k, v in st.items():
+                    if isinstance(v, int):
+                        stats["exhaustive_" + k] = stats.get("exhaustive_" + k, 0) + v
+                    else:
+                        stats.setdefault("exhaustive_" + k, v)
+                ex_hist += n
+                run.cov["evaluations"] += n
+                # the enumerated histories are pairwise distinct by construction; non-trivial = contains a collection
+                run._distinct.update(("ex", job[0], job[1], job[2], job[3], j) for j in range(st.get("nontrivial", 0)))
+        stats["exhaustive_plans"] = [{"mode": m, "depth": d, "finalizer_kinds": f, "shards": sh} for m, d, f, sh in enum_plans]
+        stats["exhaustive_enum"] = enum_info[:2] + enum_info[-2:]
+        stats["exhaustive_wall_s"] = round(time.time() - t0, 1)
     # 5 C10 collector level on the implementation
-    t2 = time.time()
-    sched_bad = schedule_check(run, gcops, [h for h in rand_hists if len(h) <= 700][: (60 if run.quick else 400)], stats)
-    stats["schedule_wall_s"] = round(time.time() - t2, 1)
+    sched_bad = []
+    if not new_failure():
+        t2 = time.time()
+        sched_bad = schedule_check(run, gcops, [h for h in rand_hists if len(h) <= 700][: (60 if run.quick else 400)], stats)
+        stats["schedule_wall_s"] = round(time.time() - t2, 1)
+    stats["later_phases_skipped_after_failure"] = new_failure()
     run.cov["stats"] = stats
     run.cov["programs"] = 0
     # verdicts
